@@ -77,7 +77,9 @@ def f14_root_cause(matcher, v):
             return True  # (a) p was not scheduled for re-expansion / (b) p was re-postponed by pruning
         # (d) p was scheduled and re-expanded, but c is a non-emitting state and the recomputed candidate for c was rejected by
         # the closest-so-far filter of the non-emitting search, whose table is rebuilt (and differs) in every round
-        return c.obs_ne != 0 and p.delayed == imp["round"]
+        # (the same table decides whether an emitting successor of a non-emitting state is replaced, so this also covers an
+        # emitting c whose predecessor p is a non-emitting state)
+        return (c.obs_ne != 0 or p.obs_ne != 0) and p.delayed == imp["round"]
     # stale-high: only possible with the second-order term of avoid_goingback. The improvement gave the predecessor another
     # predecessor, the recomputed candidate now pays a going-back penalty, is lower than the stale value and loses against it
     # in update(), so the stale value (which belongs to the overwritten history) stays.
